@@ -123,6 +123,18 @@ Theorem C14_no_check_use_gap : forall (E : env) (ts : nat -> store) (v : bool) (
 Proof. exact no_check_use_gap. Qed.
 Print Assumptions C14_no_check_use_gap.
 
+(* Of a manifest-list entry only the manifest path has read meaning: two decodings of the list that agree on
+   every entry's path (and on which bytes fail to decode, and how) give the same outcome, trace and yielded rows in
+   every API -- whatever they say about content, manifest_length, partition_spec_id, snapshot id and the counts.
+   In particular an entry whose `content` byte was flipped still contributes its manifest; a reader that drops such
+   an entry (returns a subset, or an empty table) is not this pipeline. *)
+Theorem C14_list_fields_without_read_meaning :
+  forall (E : env) (dec dec' : bytes -> avro (list lentry)) (st : store) (a : api) (o : opts),
+  (forall b, project_list (dec b) = project_list (dec' b)) ->
+  read_current (with_list_decoder E dec) st a o = read_current (with_list_decoder E dec') st a o.
+Proof. exact list_fields_without_read_meaning. Qed.
+Print Assumptions C14_list_fields_without_read_meaning.
+
 (* The model does not raise without cause (so the theorems above are not satisfied by a pipeline that
    always fails): with no transient fault anywhere, metadata that resolves, a complete answer on the
    specification side and recorded checksums that match, every API returns exactly that answer. *)
